@@ -60,6 +60,8 @@ func C10(c *core.Ctx) {
 	c.Explain = "The size arithmetic over all packet sizes and MTUs, and byte-exact reproduction under every interleaving, are numeric/behavioural and NOT decided. Decided structural necessary conditions: (R10.1 protocol-field agreement) every LpPacket field the receive path reads to reassemble and deliver (Sequence, FragIndex, FragCount, Fragment, PitToken, CongestionMark) is stored by the send path, the three fragmentation fields only when more than one fragment is produced and on every fragment; frozen exceptions NextHopFaceId and CachePolicy (set by applications, not by the forwarder); (R10.2 reserve/attach agreement) an optional header is attached to a fragment only on paths on which its overhead was subtracted from the MTU — decided by reachability that is path-sensitive in the presence predicate of the attached value; the overhead constants cover the TLV sizes implied by the definition tags, including the Fragment element's own type and length; (R10.3) an oversize packet with fragmentation disabled reaches no sendFrame; every transport sendFrame that writes drops frames longer than MTU() first (siblings; NullTransport writes nothing); a completed message is removed from the partial-message store; (R10.5) reassembly key, slot and slot count are Sequence−FragIndex, FragIndex and FragCount, FragIndex is bounded by the count before it indexes, and the sender numbers consecutive fragments consecutively."
 	c.RuleText = "instances: LpPacket fields read on receive vs written on send, optional headers with an overhead constant, the additive terms of computeHeaderOverhead, transport implementations (discovered through the type checker), reassembly call arguments. Non-trivial = has a field set, path or constant sum to decide."
 	p := c.P
+	// ---- R10.4 (shared with C17 R17.3)
+	c.Import(C17, "R10.4", "the MTU set by management has no lower bound: an effective MTU <= 0 makes the fragment count a division by zero / negative", 1, func(k string) bool { return strings.HasPrefix(k, "R17.3:mtu-lower-bound") })
 	send := c.Fn("R10.1", "fw/face", "", "sendPacket")
 	recv := c.Fn("R10.1", "fw/face", "NDNLPLinkService", "handleIncomingFrame")
 	reas := c.Fn("R10.1", "fw/face", "NDNLPLinkService", "reassemblePacket")
